@@ -15,7 +15,7 @@ REQUIRED = [
     "tree_inv_new", "tree_inv_insert", "observables_of_inv", "tree_is_fold", "xor_tree_is_fold", "iblt_tree_is_fold",
     "xor_data_lawful", "iblt_data_lawful", "reRoot_overflow_witness",
     "state_refines_spec", "stored_set_changes_only_on_success", "add_rejected_noop", "rollback_restores", "restart_equiv",
-    "clocks_downward_closed",
+    "clocks_downward_closed", "repair_idle_on_healthy_state", "repair_local", "repair_restores",
     "fact_page_size", "fact_iblt_buckets", "fact_shelves", "fact_load_empty_resets", "fact_rollback_reload_context",
     "fact_add_tx_options", "fact_comparisons", "fact_call_structure",
 ]
